@@ -111,6 +111,9 @@ class LowerTry(Rule):
         # `dynamic_cast<const T*>(&e)` on a caught exception object: non-null iff the dynamic type of e is T or derived from T --
         # the subtype test of the exception model (the handler variable e holds the class of the exception in flight)
         text = re.sub(r'\bdynamic_cast<\s*const\s+(\w+)\s*\*\s*>\(\s*&\s*(\w+)\s*\)', r'VERIF_CATCHES(\2, EXC_\1)', text)
+        # `typeid(e) == typeid(T)` on a caught polymorphic exception object: EXACT dynamic type (not "is a"); typeid(e).name() is some text
+        text = re.sub(r'\btypeid\(\s*(\w+)\s*\)\s*(==|!=)\s*typeid\(\s*(\w+)\s*\)', r'((\1) \2 EXC_\3)', text)
+        text = re.sub(r'\btypeid\(\s*(\w+)\s*\)\s*\.\s*name\(\)', r'verif_what(\1)', text)
         m = lex.mask(text)
         for mo in re.finditer(r'\b([A-Za-z_]\w*)\s*\(', m):
             if mo.group(1) not in self.KEYWORDS and mo.group(1) not in self.maythrow and mo.group(1) not in self.nothrow:
@@ -224,7 +227,7 @@ def generic_unit(ctx, src, base):
 # one, the failure no longer carries the call site -- the macro text is included verbatim, so the verifier sees exactly that)
 MAYTHROW = ['fn', 'expect_generic'] + [m for m in MACROS if m != 'expect_raises']
 # no-throw in the model: allocation failure inside string_printf / what() / c_str() is not modelled (ASSUMPTIONS)
-NOTHROW = ['string_printf', 'what', 'c_str']
+NOTHROW = ['string_printf', 'what', 'c_str', 'verif_what']
 # type-directed rewrites of the std::function / std::string uses (any unrewritten use fails the goto-cc compile gate)
 STRING_RULES = [Rule('fn();', 'verif_call(fn);', count='+'),
                 Rule('string msg = string_printf(', 'verif_string msg = verif_string_printf('),
